@@ -220,7 +220,11 @@ Definition env_obj_of (payload : list (string * value)) : option (list (string *
 Theorem priority_explicit_wins c l b payload :
   c_redactions c = Some l -> redact (with_usedef c b) payload = redact c payload.
 Proof.
-  intros H. unfold redact, effective_specs, with_usedef; simpl. rewrite H. reflexivity.
+  intros H. destruct c as [rate red js ip ud sm st mx].
+  cbn [c_redactions] in H. subst red.
+  unfold redact, effective_specs, with_usedef.
+  cbn [c_redactions c_usedef c_inplace c_rate c_json c_smart c_strategy c_max].
+  reflexivity.
 Qed.
 Theorem priority_explicit_empty c payload env :
   c_redactions c = Some [] -> env_obj_of payload = Some env ->
@@ -240,10 +244,15 @@ Theorem priority_default_set c payload :
   c_redactions c = None -> c_usedef c = true ->
   redact c payload = redact (with_redactions c (Some default_redactions)) payload.
 Proof.
-  intros H Hu. unfold redact, effective_specs, with_redactions; simpl. rewrite H, Hu. reflexivity.
+  intros H Hu. destruct c as [rate red js ip ud sm st mx].
+  cbn [c_redactions c_usedef] in H, Hu. subst red ud.
+  unfold redact, effective_specs, with_redactions.
+  cbn [c_redactions c_usedef c_inplace c_rate c_json c_smart c_strategy c_max].
+  reflexivity.
 Qed.
 
 (* ---- caller's env ---- *)
+Local Opaque flatten.
 Theorem redact_caller_untouched c payload :
   c_inplace c = false ->
   match redact c payload with
@@ -252,12 +261,13 @@ Theorem redact_caller_untouched c payload :
   end.
 Proof.
   intros Hi. unfold redact.
-  destruct (assoc "env" payload) as [ev|] eqn:Ee.
-  - destruct ev; simpl; try (destruct (py_truthy _); [exact I|]);
-      try (destruct (effective_specs c); [reflexivity|];
-           destruct (flatten _) as [ops term]; rewrite ?Hi; destruct term; reflexivity).
-  - destruct (effective_specs c); [reflexivity|].
-    destruct (flatten _) as [ops term]; destruct term; reflexivity.
+  match goal with
+  | |- context [match ?X with Some _ => _ | None => RedOod end] => destruct X as [env_obj|]
+  end; [|exact I].
+  destruct (effective_specs c) as [|sp specs]; [reflexivity|].
+  destruct (flatten (sp :: specs)) as [ops term].
+  rewrite Hi.
+  destruct term; try exact I; destruct (assoc "env" payload) as [[]|]; reflexivity.
 Qed.
 
 Theorem log_caller_untouched c payload u size d safe caller r :
@@ -267,7 +277,7 @@ Proof.
   intros Hi. unfold log. destruct (should_drop c payload u) as [drop draws].
   destruct drop; [discriminate|].
   pose proof (redact_caller_untouched c payload Hi) as H.
-  destruct (redact c payload); try discriminate; intros E; inversion E; subst; exact H.
+  destruct (redact c payload); try discriminate; intros E; inversion E; subst; reflexivity || assumption.
 Qed.
 
 (* in place: the caller's env keeps exactly its top-level keys, in order
@@ -300,6 +310,8 @@ Proof.
      [eexists; split; [reflexivity|]; rewrite run_ops_keys; reflexivity
      |exists kvs; split; reflexivity]).
 Qed.
+
+Local Transparent flatten.
 
 (* ================================================================== *)
 (* 4. what _set_by_path writes: read-back                              *)
@@ -337,9 +349,10 @@ Proof. unfold norm_idx. destruct (idx <? 0); [reflexivity|discriminate]. Qed.
 Lemma norm_idx_lt idx len j :
   idx <? 0 = true -> norm_idx idx len = Some j -> (j < len)%nat.
 Proof.
-  unfold norm_idx. intros ->. destruct (- idx >? Z.of_nat len) eqn:E; [discriminate|].
+  unfold norm_idx. intros Hneg. rewrite Hneg.
+  destruct (- idx >? Z.of_nat len) eqn:E; [discriminate|].
   intros H; inversion H; subst. rewrite Z.gtb_ltb in E. apply Z.ltb_ge in E.
-  apply Z.ltb_lt in H0 || idtac. lia.
+  apply Z.ltb_lt in Hneg. lia.
 Qed.
 
 Lemma steps_of_cons_inv s rest pos :
@@ -465,6 +478,43 @@ Qed.
 (* ================================================================== *)
 (* 5. frame                                                            *)
 (* ================================================================== *)
+(* one-step unfoldings of set_segs *)
+Lemma set_key_last p v kvs : set_segs [SKey p] v (VObj kvs) = VObj (upsert p v kvs).
+Proof. reflexivity. Qed.
+Lemma set_key_more p s2 rest2 v kvs :
+  set_segs (SKey p :: s2 :: rest2) v (VObj kvs)
+  = VObj (upsert p (set_segs (s2 :: rest2) v (as_obj (get_or_null p kvs))) kvs).
+Proof. reflexivity. Qed.
+Definition idx_l0 (k : string) (kvs : list (string * value)) : list value :=
+  match assoc k kvs with Some (VList l) => l | _ => [] end.
+Definition idx_l1 (k : string) (i : Z) (kvs : list (string * value)) : list value :=
+  if i <? 0 then idx_l0 k kvs else grow (idx_l0 k kvs) (S (Z.to_nat i)).
+Lemma set_idx_none k i rest v kvs :
+  norm_idx i (List.length (idx_l1 k i kvs)) = None ->
+  set_segs (SIdx k i :: rest) v (VObj kvs) = VObj (upsert k (VList (idx_l1 k i kvs)) kvs).
+Proof. intros H. cbn [set_segs]. fold (idx_l0 k kvs). fold (idx_l1 k i kvs). rewrite H. reflexivity. Qed.
+Lemma set_idx_last k i v kvs j :
+  norm_idx i (List.length (idx_l1 k i kvs)) = Some j ->
+  set_segs [SIdx k i] v (VObj kvs) = VObj (upsert k (VList (set_nth j v (idx_l1 k i kvs))) kvs).
+Proof. intros H. cbn [set_segs]. fold (idx_l0 k kvs). fold (idx_l1 k i kvs). rewrite H. reflexivity. Qed.
+Lemma set_idx_more k i s2 rest2 v kvs j :
+  norm_idx i (List.length (idx_l1 k i kvs)) = Some j ->
+  set_segs (SIdx k i :: s2 :: rest2) v (VObj kvs)
+  = VObj (upsert k (VList (set_nth j (set_segs (s2 :: rest2) v
+                                        (as_obj (nth j (idx_l1 k i kvs) VNull)))
+                                   (idx_l1 k i kvs))) kvs).
+Proof.
+  intros H. change (set_segs (SIdx k i :: s2 :: rest2) v (VObj kvs)) with
+    (match norm_idx i (List.length (idx_l1 k i kvs)) with
+     | None => VObj (upsert k (VList (idx_l1 k i kvs)) kvs)
+     | Some j => VObj (upsert k (VList (set_nth j (set_segs (s2 :: rest2) v
+                        (as_obj (nth j (idx_l1 k i kvs) VNull))) (idx_l1 k i kvs))) kvs)
+     end).
+  rewrite H. reflexivity.
+Qed.
+Lemma idx_l1_nonneg_lt k i kvs :
+  i <? 0 = false -> (Z.to_nat i < List.length (idx_l1 k i kvs))%nat.
+Proof. intros Hi. unfold idx_l1. rewrite Hi, length_grow. lia. Qed.
 Definition first_key (segs : list seg) : option string :=
   match segs with
   | SKey p :: _ => Some p
@@ -539,52 +589,699 @@ Proof.
     destruct (steps_of_cons_inv _ _ _ Hs) as [(p & pr & -> & Hr & Hp)|(q & i & pr & -> & Hi & Hr & Hp)].
     + destruct c as [|st c'].
       * simpl in Hp. inversion Hp; subst p pr.
-        cbn [set_segs]. destruct rest; simpl; rewrite assoc_upsert_other by congruence; reflexivity.
+        destruct rest as [|s2 rest2]; [rewrite set_key_last|rewrite set_key_more];
+          simpl; rewrite assoc_upsert_other by congruence; reflexivity.
       * simpl in Hp. inversion Hp; subst st pr.
         destruct rest as [|s2 rest2].
         { simpl in Hr. inversion Hr. destruct c'; discriminate. }
-        cbn [set_segs]. simpl app. cbn [lookup]. rewrite assoc_upsert_same.
+        rewrite set_key_more. simpl app. cbn [lookup]. rewrite assoc_upsert_same.
         rewrite (IH v _ c' k k' r r' Hr Hk).
         assert (Hhd : exists kk rr, (c' ++ KS k :: r)%list = KS kk :: rr).
-        { destruct c' as [|st2 c2]; [eauto|].
-          simpl in Hr. destruct (steps_head _ _ _ Hr) as [kk ->]. simpl. eauto. }
+        { destruct c' as [|st2 c2]; [simpl; eauto|].
+          destruct (steps_head (s2 :: rest2) st2 (c2 ++ KS k' :: r')%list Hr) as [kk ->]. simpl. eauto. }
         destruct Hhd as (kk & rr & ->).
         rewrite lookup_as_obj. unfold get_or_null.
-        destruct (assoc p kvs); [reflexivity|]. reflexivity.
-    + destruct c as [|st c'].
-      * simpl in Hp. inversion Hp; subst q pr.
-        cbn [set_segs]. rewrite Hi, (norm_idx_nonneg _ _ Hi).
-        simpl. rewrite assoc_upsert_other by congruence. reflexivity.
+        destruct (assoc p kvs); reflexivity.
+    + pose proof (norm_idx_nonneg i (List.length (idx_l1 q i kvs)) Hi) as Hn.
+      pose proof (idx_l1_nonneg_lt q i kvs Hi) as Hlt.
+      destruct c as [|st c'].
+      * simpl in Hp. inversion Hp; subst k'.
+        destruct rest as [|s2 rest2];
+          [rewrite (set_idx_last _ _ _ _ _ Hn)|rewrite (set_idx_more _ _ _ _ _ _ _ Hn)];
+          simpl; rewrite assoc_upsert_other by congruence; reflexivity.
       * simpl in Hp. inversion Hp as [[Hst Hrest]]. subst st.
         destruct c' as [|st2 c2]; [simpl in Hrest; discriminate|].
         simpl in Hrest. inversion Hrest as [[Hst2 Hpr]]. subst st2 pr.
         destruct rest as [|s2 rest2].
         { simpl in Hr. inversion Hr. destruct c2; discriminate. }
-        cbn [set_segs]. rewrite Hi.
-        set (l0 := match assoc q kvs with Some (VList l) => l | _ => [] end).
-        set (l1 := grow l0 (S (Z.to_nat i))).
-        rewrite (norm_idx_nonneg _ _ Hi).
-        assert (Hlt : (Z.to_nat i < List.length l1)%nat) by (unfold l1; rewrite length_grow; lia).
+        rewrite (set_idx_more _ _ _ _ _ _ _ Hn).
         simpl app. cbn [lookup]. rewrite assoc_upsert_same.
         rewrite nth_error_set_nth_same by exact Hlt.
         rewrite (IH v _ c2 k k' r r' Hr Hk).
         assert (Hhd : exists kk rr, (c2 ++ KS k :: r)%list = KS kk :: rr).
-        { destruct c2 as [|st3 c3]; [eauto|].
-          simpl in Hr. destruct (steps_head _ _ _ Hr) as [kk ->]. simpl. eauto. }
+        { destruct c2 as [|st3 c3]; [simpl; eauto|].
+          destruct (steps_head (s2 :: rest2) st3 (c3 ++ KS k' :: r')%list Hr) as [kk ->]. simpl. eauto. }
         destruct Hhd as (kk & rr & ->).
         rewrite lookup_as_obj.
-        (* relate nth j l1 to the list that was there *)
+        unfold idx_l1. rewrite Hi. unfold idx_l0.
         destruct (assoc q kvs) as [y|] eqn:Ea.
-        -- destruct y as [| | | |l| |]; try (subst l0 l1;
-             destruct (nth_grow_beyond [] (S (Z.to_nat i)) (Z.to_nat i)) as [-> | ->];
-             simpl; try lia; reflexivity).
-           subst l0. destruct (nth_error l (Z.to_nat i)) as [y|] eqn:Ey.
-           ++ unfold l1. rewrite nth_grow_within by (eapply nth_error_Some_lt; exact Ey).
+        -- destruct y as [| | | |l| |];
+             try (destruct (nth_grow_beyond [] (S (Z.to_nat i)) (Z.to_nat i)) as [-> | ->];
+                  simpl; try lia; reflexivity).
+           destruct (nth_error l (Z.to_nat i)) as [y|] eqn:Ey.
+           ++ rewrite nth_grow_within by (eapply nth_error_Some_lt; exact Ey).
               rewrite (nth_error_nth _ _ _ Ey). reflexivity.
-           ++ unfold l1.
-              destruct (nth_grow_beyond l (S (Z.to_nat i)) (Z.to_nat i)) as [-> | ->];
+           ++ destruct (nth_grow_beyond l (S (Z.to_nat i)) (Z.to_nat i)) as [-> | ->];
                 [apply nth_error_None_ge; exact Ey|reflexivity|reflexivity].
-        -- subst l0 l1.
-           destruct (nth_grow_beyond [] (S (Z.to_nat i)) (Z.to_nat i)) as [-> | ->];
+        -- destruct (nth_grow_beyond [] (S (Z.to_nat i)) (Z.to_nat i)) as [-> | ->];
              simpl; try lia; reflexivity.
+Qed.
+
+(* ================================================================== *)
+(* 6. non-leakage                                                      *)
+(* ================================================================== *)
+Section ValueInd.
+  Variable P : value -> Prop.
+  Hypothesis Hnull : P VNull.
+  Hypothesis Hbool : forall b, P (VBool b).
+  Hypothesis Hnum : forall n, P (VNum n).
+  Hypothesis Hstr : forall s, P (VStr s).
+  Hypothesis Hlist : forall l, Forall P l -> P (VList l).
+  Hypothesis Hobj : forall kvs, Forall (fun kv => P (snd kv)) kvs -> P (VObj kvs).
+  Hypothesis Hdate : forall a u, P (VDate a u).
+  Fixpoint value_ind' (v : value) : P v :=
+    match v with
+    | VNull => Hnull
+    | VBool b => Hbool b
+    | VNum n => Hnum n
+    | VStr s => Hstr s
+    | VList l => Hlist l ((fix go (l : list value) : Forall P l :=
+                             match l with
+                             | [] => Forall_nil _
+                             | x :: r => Forall_cons _ (value_ind' x) (go r)
+                             end) l)
+    | VObj kvs => Hobj kvs ((fix go (kvs : list (string * value))
+                               : Forall (fun kv => P (snd kv)) kvs :=
+                               match kvs with
+                               | [] => Forall_nil _
+                               | kv :: r => Forall_cons _ (value_ind' (snd kv)) (go r)
+                               end) kvs)
+    | VDate a u => Hdate a u
+    end.
+End ValueInd.
+
+Lemma leaks_eq s P v :
+  leaks s P v =
+  if covered P then false else
+  match v with
+  | VStr t => str_contains s t
+  | VList l => existsbi (fun i x => leaks s (derive (IS i) P) x) 0 l
+  | VObj kvs => existsb (fun kv => str_contains s (fst kv)
+                                   || leaks s (derive (KS (fst kv)) P) (snd kv)) kvs
+  | _ => false
+  end.
+Proof. destruct v; reflexivity. Qed.
+
+Lemma existsb_false {A} (f : A -> bool) l :
+  existsb f l = false <-> forall x, In x l -> f x = false.
+Proof.
+  induction l as [|y r IH]; simpl.
+  - split; [intros _ x []|reflexivity].
+  - rewrite orb_false_iff, IH. split.
+    + intros [Hy Hr] x [->|Hx]; auto.
+    + intros H. split; [apply H; now left|intros x Hx; apply H; now right].
+Qed.
+
+Lemma existsbi_false {A} (f : nat -> A -> bool) l : forall i,
+  existsbi f i l = false <-> forall n x, nth_error l n = Some x -> f (i + n)%nat x = false.
+Proof.
+  induction l as [|y r IH]; intros i; simpl.
+  - split; [intros _ [|n] x; discriminate|reflexivity].
+  - rewrite orb_false_iff, IH. split.
+    + intros [Hy Hr] [|n] x Hx; simpl in Hx.
+      * inversion Hx; subst. rewrite Nat.add_0_r. exact Hy.
+      * replace (i + S n)%nat with (S i + n)%nat by lia. apply Hr. exact Hx.
+    + intros H. split.
+      * specialize (H 0%nat y eq_refl). rewrite Nat.add_0_r in H. exact H.
+      * intros n x Hx. replace (S i + n)%nat with (i + S n)%nat by lia. apply H. exact Hx.
+Qed.
+
+(* more covering positions, fewer leaks *)
+Lemma covered_incl P P' : incl P P' -> covered P = true -> covered P' = true.
+Proof.
+  unfold covered. intros Hi H. apply existsb_exists in H. destruct H as [p [Hp Hn]].
+  apply existsb_exists. exists p. split; [apply Hi; exact Hp|exact Hn].
+Qed.
+Lemma derive_incl st P P' : incl P P' -> incl (derive st P) (derive st P').
+Proof.
+  unfold derive. intros Hi x Hx. apply in_flat_map in Hx. destruct Hx as [p [Hp Hx]].
+  apply in_flat_map. exists p. split; [apply Hi; exact Hp|exact Hx].
+Qed.
+
+Lemma leaks_mono s v : forall P P', incl P P' -> leaks s P v = false -> leaks s P' v = false.
+Proof.
+  induction v using value_ind'; intros P P' Hi; rewrite !leaks_eq;
+    destruct (covered P) eqn:Hc;
+    try (rewrite (covered_incl _ _ Hi Hc); reflexivity);
+    destruct (covered P'); try reflexivity; try (intros Hx; exact Hx).
+  - (* list *)
+    rewrite !existsbi_false. intros Hl n x Hx.
+    assert (Hin : In x l) by (eapply nth_error_In; exact Hx).
+    rewrite Forall_forall in H.
+    eapply (H x Hin); [apply derive_incl; exact Hi|]. apply Hl. exact Hx.
+  - (* object *)
+    rewrite !existsb_false. intros Hl kv Hkv.
+    specialize (Hl kv Hkv). apply orb_false_iff in Hl. destruct Hl as [Hk Hv].
+    rewrite Hk. simpl.
+    rewrite Forall_forall in H.
+    eapply (H kv Hkv); [apply derive_incl; exact Hi|exact Hv].
+Qed.
+
+Lemma occurs_leaks s v P : occurs s v = false -> leaks s P v = false.
+Proof. unfold occurs. apply leaks_mono. intros x []. Qed.
+
+Lemma leaks_empty_obj s P : leaks s P (VObj []) = false.
+Proof. rewrite leaks_eq. destruct (covered P); reflexivity. Qed.
+Lemma leaks_empty_list s P : leaks s P (VList []) = false.
+Proof. rewrite leaks_eq. destruct (covered P); reflexivity. Qed.
+Lemma leaks_null s P : leaks s P VNull = false.
+Proof. rewrite leaks_eq. destruct (covered P); reflexivity. Qed.
+
+(* ---- unique keys ---- *)
+Lemma mem_str_In x l : mem_str x l = true <-> In x l.
+Proof.
+  unfold mem_str. rewrite existsb_exists. split.
+  - intros [y [Hy He]]. apply String.eqb_eq in He. subst. exact Hy.
+  - intros H. exists x. split; [exact H|apply String.eqb_refl].
+Qed.
+
+Lemma In_upsert k v kvs kv :
+  nodup_str (map fst kvs) = true -> In kv (upsert k v kvs) ->
+  kv = (k, v) \/ (In kv kvs /\ fst kv <> k).
+Proof.
+  induction kvs as [|[k' x] r IH]; simpl; intros Hn Hin.
+  - destruct Hin as [<-|[]]. now left.
+  - apply andb_true_iff in Hn. destruct Hn as [Hk' Hn].
+    destruct (String.eqb k k') eqn:E.
+    + apply String.eqb_eq in E. subst k'.
+      destruct Hin as [<-|Hin]; [now left|].
+      right. split; [now right|].
+      intros Hf. apply negb_true_iff in Hk'.
+      assert (mem_str k (map fst r) = true) as Hm.
+      { apply mem_str_In. rewrite <- Hf. apply in_map. exact Hin. }
+      congruence.
+    + destruct Hin as [<-|Hin].
+      * right. split; [now left|]. simpl. intros ->. rewrite String.eqb_refl in E. discriminate.
+      * destruct (IH Hn Hin) as [->|[Hi Hf]]; [now left|]. right. split; [now right|exact Hf].
+Qed.
+
+Lemma assoc_In k x kvs : assoc k kvs = Some x -> In (k, x) kvs.
+Proof.
+  induction kvs as [|[k' y] r IH]; simpl; [discriminate|].
+  destruct (String.eqb k k') eqn:E.
+  - apply String.eqb_eq in E. subst. intros H; inversion H; subst. now left.
+  - intros H. right. apply IH. exact H.
+Qed.
+
+Lemma upsert_keys_nodup k v kvs :
+  nodup_str (map fst kvs) = true -> nodup_str (map fst (upsert k v kvs)) = true.
+Proof.
+  induction kvs as [|[k' x] r IH]; simpl; intros Hn; [reflexivity|].
+  apply andb_true_iff in Hn. destruct Hn as [Hk' Hn].
+  destruct (String.eqb k k') eqn:E; simpl.
+  - rewrite Hk', Hn. reflexivity.
+  - rewrite (IH Hn), andb_true_r.
+    apply negb_true_iff. apply negb_true_iff in Hk'.
+    destruct (mem_str k' (map fst (upsert k v r))) eqn:Hm; [|reflexivity].
+    apply mem_str_In in Hm. apply in_map_iff in Hm. destruct Hm as [kv [Hf Hin]].
+    destruct (In_upsert _ _ _ _ Hn Hin) as [->|[Hi _]].
+    + simpl in Hf. subst k'. rewrite String.eqb_refl in E. discriminate.
+    + assert (mem_str k' (map fst r) = true) as Hm2
+          by (apply mem_str_In; rewrite <- Hf; apply in_map; exact Hi).
+      congruence.
+Qed.
+
+Lemma forallb_In {A} (f : A -> bool) l x : forallb f l = true -> In x l -> f x = true.
+Proof. intros H Hx. rewrite forallb_forall in H. apply H. exact Hx. Qed.
+
+Lemma wfv_obj_inv kvs :
+  wfv (VObj kvs) = true ->
+  nodup_str (map fst kvs) = true /\ forall kv, In kv kvs -> wfv (snd kv) = true.
+Proof.
+  simpl. intros H. apply andb_true_iff in H. destruct H as [Hn Hf].
+  split; [exact Hn|]. intros kv Hkv. exact (forallb_In _ _ _ Hf Hkv).
+Qed.
+Lemma wfv_obj_intro kvs :
+  nodup_str (map fst kvs) = true -> (forall kv, In kv kvs -> wfv (snd kv) = true) ->
+  wfv (VObj kvs) = true.
+Proof.
+  intros Hn Hf. simpl. rewrite Hn. simpl. apply forallb_forall. exact Hf.
+Qed.
+
+Lemma wfv_upsert k x kvs :
+  wfv (VObj kvs) = true -> wfv x = true -> wfv (VObj (upsert k x kvs)) = true.
+Proof.
+  intros H Hx. destruct (wfv_obj_inv _ H) as [Hn Hf].
+  apply wfv_obj_intro; [apply upsert_keys_nodup; exact Hn|].
+  intros kv Hkv. destruct (In_upsert _ _ _ _ Hn Hkv) as [->|[Hi _]]; [exact Hx|apply Hf; exact Hi].
+Qed.
+
+Lemma wfv_as_obj x : wfv x = true -> wfv (as_obj x) = true.
+Proof. destruct x; intros H; try reflexivity; exact H. Qed.
+
+Lemma wfv_get_or_null k kvs : wfv (VObj kvs) = true -> wfv (get_or_null k kvs) = true.
+Proof.
+  intros H. unfold get_or_null. destruct (assoc k kvs) as [x|] eqn:E; [|reflexivity].
+  destruct (wfv_obj_inv _ H) as [_ Hf]. apply (Hf (k, x)). apply assoc_In. exact E.
+Qed.
+
+Lemma wfv_list_nth l j : forallb wfv l = true -> wfv (nth j l VNull) = true.
+Proof.
+  intros H. destruct (nth_in_or_default j l VNull) as [Hin| ->]; [|reflexivity].
+  exact (forallb_In _ _ _ H Hin).
+Qed.
+Lemma wfv_set_nth j x l : forallb wfv l = true -> wfv x = true -> forallb wfv (set_nth j x l) = true.
+Proof.
+  revert j. induction l as [|y r IH]; intros [|j] H Hx; simpl in *; auto;
+    apply andb_true_iff in H; destruct H as [Hy Hr]; apply andb_true_iff; split; auto.
+Qed.
+Lemma wfv_idx_l0 k kvs : wfv (VObj kvs) = true -> forallb wfv (idx_l0 k kvs) = true.
+Proof.
+  intros H. unfold idx_l0. destruct (assoc k kvs) as [x|] eqn:E; [|reflexivity].
+  destruct x; try reflexivity.
+  destruct (wfv_obj_inv _ H) as [_ Hf]. apply (Hf (k, VList l)). apply assoc_In. exact E.
+Qed.
+Lemma wfv_repeat_empty n : forallb wfv (repeat (VObj []) n) = true.
+Proof. induction n; simpl; auto. Qed.
+Lemma wfv_idx_l1 k i kvs : wfv (VObj kvs) = true -> forallb wfv (idx_l1 k i kvs) = true.
+Proof.
+  intros H. unfold idx_l1. destruct (i <? 0); [apply wfv_idx_l0; exact H|].
+  unfold grow. rewrite forallb_app, (wfv_idx_l0 _ _ H), wfv_repeat_empty. reflexivity.
+Qed.
+
+Lemma set_segs_wfv : forall segs v e,
+  wfv e = true -> wfv v = true -> wfv (set_segs segs v e) = true.
+Proof.
+  induction segs as [|s rest IH]; intros v e He Hv; [exact He|].
+  destruct e as [| | | | |kvs|]; try (destruct s; exact He).
+  destruct s as [p|k i| |]; try exact He.
+  - destruct rest as [|s2 rest2].
+    + rewrite set_key_last. apply wfv_upsert; assumption.
+    + rewrite set_key_more. apply wfv_upsert; [exact He|].
+      apply IH; [apply wfv_as_obj, wfv_get_or_null; exact He|exact Hv].
+  - destruct (norm_idx i (List.length (idx_l1 k i kvs))) as [j|] eqn:En.
+    + destruct rest as [|s2 rest2].
+      * rewrite (set_idx_last _ _ _ _ _ En). apply wfv_upsert; [exact He|].
+        simpl. apply wfv_set_nth; [apply wfv_idx_l1; exact He|exact Hv].
+      * rewrite (set_idx_more _ _ _ _ _ _ _ En). apply wfv_upsert; [exact He|].
+        simpl. apply wfv_set_nth; [apply wfv_idx_l1; exact He|].
+        apply IH; [|exact Hv]. apply wfv_as_obj, wfv_list_nth, wfv_idx_l1. exact He.
+    + rewrite (set_idx_none _ _ _ _ _ En). apply wfv_upsert; [exact He|].
+      simpl. apply wfv_idx_l1. exact He.
+Qed.
+
+(* ---- covering positions of a path ---- *)
+Lemma cover_key p rest : cover (SKey p :: rest) = map (cons (KS p)) (cover rest).
+Proof. unfold cover. simpl. destruct (steps_of rest); reflexivity. Qed.
+Lemma cover_idx k i rest :
+  cover (SIdx k i :: rest) =
+  if i <? 0 then [] else map (fun pos => KS k :: IS (Z.to_nat i) :: pos) (cover rest).
+Proof. unfold cover. simpl. destruct (i <? 0); [reflexivity|]. destruct (steps_of rest); reflexivity. Qed.
+
+Lemma derive_app st P Q : derive st (P ++ Q) = (derive st P ++ derive st Q)%list.
+Proof. unfold derive. apply flat_map_app. Qed.
+Lemma step_eqb_refl st : step_eqb st st = true.
+Proof. destruct st; simpl; [apply String.eqb_refl|apply Nat.eqb_refl]. Qed.
+Lemma derive_cons_same st C : derive st (map (cons st) C) = C.
+Proof.
+  unfold derive. induction C as [|c C IH]; simpl; [reflexivity|].
+  rewrite step_eqb_refl. simpl. rewrite IH. reflexivity.
+Qed.
+Lemma derive_cons_other st st' C : step_eqb st' st = false -> derive st (map (cons st') C) = [].
+Proof.
+  intros H. unfold derive. induction C as [|c C IH]; simpl; [reflexivity|].
+  rewrite H. simpl. exact IH.
+Qed.
+Lemma derive_cons2_same a b C : derive b (derive a (map (fun pos => a :: b :: pos) C)) = C.
+Proof.
+  replace (map (fun pos => a :: b :: pos) C) with (map (cons a) (map (cons b) C))
+    by (rewrite map_map; reflexivity).
+  rewrite !derive_cons_same. reflexivity.
+Qed.
+Lemma derive_cons2_first a a' b C :
+  step_eqb a' a = false -> derive a (map (fun pos => a' :: b :: pos) C) = [].
+Proof.
+  intros H. replace (map (fun pos => a' :: b :: pos) C) with (map (cons a') (map (cons b) C))
+    by (rewrite map_map; reflexivity).
+  apply derive_cons_other. exact H.
+Qed.
+Lemma derive_cons2_second a b b' C :
+  step_eqb b' b = false -> derive b (derive a (map (fun pos => a :: b' :: pos) C)) = [].
+Proof.
+  intros H. replace (map (fun pos => a :: b' :: pos) C) with (map (cons a) (map (cons b') C))
+    by (rewrite map_map; reflexivity).
+  rewrite derive_cons_same. apply derive_cons_other. exact H.
+Qed.
+
+Lemma covered_app P Q : covered (P ++ Q) = covered P || covered Q.
+Proof. unfold covered. apply existsb_app. Qed.
+Lemma covered_map_cons st C : covered (map (cons st) C) = false.
+Proof. unfold covered. induction C; simpl; auto. Qed.
+Lemma covered_map_cons2 a b C : covered (map (fun pos => a :: b :: pos) C) = false.
+Proof. unfold covered. induction C; simpl; auto. Qed.
+
+Lemma ks_neq k k' : k <> k' -> step_eqb (KS k') (KS k) = false.
+Proof. intros H. simpl. apply String.eqb_neq. congruence. Qed.
+
+(* ---- one object update ---- *)
+Lemma leaks_upsert s Q k x kvs :
+  nodup_str (map fst kvs) = true ->
+  str_contains s k = false ->
+  leaks s (derive (KS k) Q) x = false ->
+  (forall kv, In kv kvs -> fst kv <> k ->
+     str_contains s (fst kv) || leaks s (derive (KS (fst kv)) Q) (snd kv) = false) ->
+  leaks s Q (VObj (upsert k x kvs)) = false.
+Proof.
+  intros Hn Hk Hx Hrest. rewrite leaks_eq. destruct (covered Q); [reflexivity|].
+  apply existsb_false. intros kv Hkv.
+  destruct (In_upsert _ _ _ _ Hn Hkv) as [->|[Hi Hf]].
+  - simpl. rewrite Hk, Hx. reflexivity.
+  - apply Hrest; assumption.
+Qed.
+
+Lemma leaks_obj_inv s P kvs :
+  leaks s P (VObj kvs) = false -> covered P = false ->
+  forall kv, In kv kvs ->
+    str_contains s (fst kv) || leaks s (derive (KS (fst kv)) P) (snd kv) = false.
+Proof.
+  rewrite leaks_eq. intros H Hc. rewrite Hc in H. rewrite existsb_false in H. exact H.
+Qed.
+
+Lemma leaks_list_inv s P l :
+  leaks s P (VList l) = false -> covered P = false ->
+  forall n x, nth_error l n = Some x -> leaks s (derive (IS n) P) x = false.
+Proof.
+  rewrite leaks_eq. intros H Hc. rewrite Hc in H.
+  rewrite existsbi_false in H. intros n x Hx. exact (H n x Hx).
+Qed.
+
+Lemma leaks_list_intro s P l :
+  (forall n x, nth_error l n = Some x -> leaks s (derive (IS n) P) x = false) ->
+  leaks s P (VList l) = false.
+Proof.
+  intros H. rewrite leaks_eq. destruct (covered P); [reflexivity|].
+  apply existsbi_false. intros n x Hx. simpl. apply H. exact Hx.
+Qed.
+
+Lemma nth_error_grow l n m x :
+  nth_error (grow l n) m = Some x -> nth_error l m = Some x \/ x = VObj [].
+Proof.
+  unfold grow. intros H. destruct (Nat.lt_ge_cases m (List.length l)) as [Hlt|Hge].
+  - rewrite nth_error_app1 in H by exact Hlt. now left.
+  - rewrite nth_error_app2 in H by exact Hge. right.
+    apply nth_error_In in H. apply repeat_spec in H. exact H.
+Qed.
+
+Lemma nth_error_idx_l1 k i kvs m x :
+  nth_error (idx_l1 k i kvs) m = Some x -> nth_error (idx_l0 k kvs) m = Some x \/ x = VObj [].
+Proof.
+  unfold idx_l1. destruct (i <? 0); [now left|]. apply nth_error_grow.
+Qed.
+
+Lemma nth_idx_l1_cases k i kvs j :
+  (exists x, nth_error (idx_l0 k kvs) j = Some x /\ nth j (idx_l1 k i kvs) VNull = x)
+  \/ as_obj (nth j (idx_l1 k i kvs) VNull) = VObj [].
+Proof.
+  destruct (nth_error (idx_l1 k i kvs) j) as [x|] eqn:E.
+  - rewrite (nth_error_nth _ _ _ E).
+    destruct (nth_error_idx_l1 _ _ _ _ _ E) as [H| ->]; [left; eauto|right; reflexivity].
+  - right. rewrite nth_overflow by (apply nth_error_None; exact E). reflexivity.
+Qed.
+
+Definition segs_clean (s : string) (segs : list seg) : bool := forallb (seg_clean s) segs.
+
+(* what the hypothesis about the old object gives for the list under key k *)
+Lemma old_list_elems s P k kvs :
+  leaks s P (VObj kvs) = false -> covered P = false -> covered (derive (KS k) P) = false ->
+  forall n x, nth_error (idx_l0 k kvs) n = Some x ->
+    leaks s (derive (IS n) (derive (KS k) P)) x = false.
+Proof.
+  intros H Hc Hc2 n x Hx. unfold idx_l0 in Hx.
+  destruct (assoc k kvs) as [y|] eqn:Ea; [|destruct n; discriminate].
+  destruct y as [| | | |l| |]; try (destruct n; discriminate).
+  pose proof (leaks_obj_inv _ _ _ H Hc (k, VList l) (assoc_In _ _ _ Ea)) as Hl.
+  apply orb_false_iff in Hl. destruct Hl as [_ Hl]. simpl in Hl.
+  exact (leaks_list_inv _ _ _ Hl Hc2 n x Hx).
+Qed.
+
+(* ---- the main step: one _set_by_path call ---- *)
+Lemma set_no_leak s : forall segs Q v e,
+  segs <> [] -> is_obj e = true -> wfv e = true ->
+  segs_clean s segs = true -> occurs s v = false ->
+  leaks s (cover segs ++ Q) e = false ->
+  leaks s Q (set_segs segs v e) = false.
+Proof.
+  induction segs as [|sg rest IH]; intros Q v e Hne Hobj Hwf Hcl Hv Hl; [congruence|].
+  destruct e as [| | | | |kvs|]; try discriminate. clear Hobj Hne.
+  unfold segs_clean in Hcl. simpl in Hcl. apply andb_true_iff in Hcl. destruct Hcl as [Hsg Hcl].
+  destruct (wfv_obj_inv _ Hwf) as [Hn Hwfk].
+  destruct (covered Q) eqn:HcQ.
+  { destruct (set_segs_obj (sg :: rest) v kvs) as [kvs' ->]. rewrite leaks_eq, HcQ. reflexivity. }
+  destruct sg as [p|k i| |].
+  - (* name *)
+    simpl in Hsg. apply negb_true_iff in Hsg.
+    rewrite cover_key in Hl.
+    assert (HcP : covered (map (cons (KS p)) (cover rest) ++ Q) = false)
+      by (rewrite covered_app, covered_map_cons, HcQ; reflexivity).
+    pose proof (leaks_obj_inv _ _ _ Hl HcP) as Hold.
+    assert (Hothers : forall kv, In kv kvs -> fst kv <> p ->
+              str_contains s (fst kv) || leaks s (derive (KS (fst kv)) Q) (snd kv) = false).
+    { intros kv Hkv Hf. specialize (Hold kv Hkv).
+      rewrite derive_app, derive_cons_other in Hold by (apply ks_neq; congruence).
+      exact Hold. }
+    destruct rest as [|s2 rest2].
+    + rewrite set_key_last. apply leaks_upsert; try assumption.
+      apply occurs_leaks. exact Hv.
+    + rewrite set_key_more. apply leaks_upsert; try assumption.
+      apply IH; try assumption; try discriminate.
+      * apply is_obj_as_obj.
+      * apply wfv_as_obj, wfv_get_or_null. exact Hwf.
+      * unfold get_or_null. destruct (assoc p kvs) as [y|] eqn:Ea; [|apply leaks_empty_obj].
+        destruct y; try apply leaks_empty_obj.
+        specialize (Hold _ (assoc_In _ _ _ Ea)). apply orb_false_iff in Hold.
+        destruct Hold as [_ Hold]. simpl in Hold.
+        rewrite derive_app, derive_cons_same in Hold. exact Hold.
+  - (* name[i] *)
+    simpl in Hsg. apply negb_true_iff in Hsg.
+    rewrite cover_idx in Hl.
+    set (C := if i <? 0 then [] else map (fun pos => KS k :: IS (Z.to_nat i) :: pos) (cover rest)) in *.
+    assert (HcC : covered C = false) by (unfold C; destruct (i <? 0); [reflexivity|apply covered_map_cons2]).
+    assert (HcP : covered (C ++ Q) = false) by (rewrite covered_app, HcC, HcQ; reflexivity).
+    pose proof (leaks_obj_inv _ _ _ Hl HcP) as Hold.
+    assert (Hothers : forall kv, In kv kvs -> fst kv <> k ->
+              str_contains s (fst kv) || leaks s (derive (KS (fst kv)) Q) (snd kv) = false).
+    { intros kv Hkv Hf. specialize (Hold kv Hkv).
+      rewrite derive_app in Hold.
+      replace (derive (KS (fst kv)) C) with (@nil (list step)) in Hold; [exact Hold|].
+      unfold C. destruct (i <? 0); [reflexivity|].
+      symmetry. apply derive_cons2_first. apply ks_neq. congruence. }
+    set (Q1 := derive (KS k) Q).
+    (* elements of the list that is written back *)
+    assert (Hkeep : covered Q1 = false ->
+              forall n x, nth_error (idx_l1 k i kvs) n = Some x ->
+                (i <? 0 = true \/ n <> Z.to_nat i) ->
+                leaks s (derive (IS n) Q1) x = false).
+    { intros HcQ1 n x Hx Hn'.
+      destruct (nth_error_idx_l1 _ _ _ _ _ Hx) as [Hx0| ->]; [|apply leaks_empty_obj].
+      assert (Hc2 : covered (derive (KS k) (C ++ Q)) = false).
+      { rewrite derive_app, covered_app. fold Q1. rewrite HcQ1, orb_false_r.
+        unfold C. destruct (i <? 0); [reflexivity|].
+        replace (map (fun pos => KS k :: IS (Z.to_nat i) :: pos) (cover rest))
+          with (map (cons (KS k)) (map (cons (IS (Z.to_nat i))) (cover rest)))
+          by (rewrite map_map; reflexivity).
+        rewrite derive_cons_same. apply covered_map_cons. }
+      pose proof (old_list_elems _ _ _ _ Hl HcP Hc2 n x Hx0) as Hx1.
+      rewrite !derive_app in Hx1. fold Q1 in Hx1.
+      replace (derive (IS n) (derive (KS k) C)) with (@nil (list step)) in Hx1; [exact Hx1|].
+      unfold C. destruct (i <? 0) eqn:Ei; [reflexivity|].
+      destruct Hn' as [Hn'|Hn']; [discriminate|].
+      symmetry. apply derive_cons2_second. simpl. apply Nat.eqb_neq. congruence. }
+    destruct (norm_idx i (List.length (idx_l1 k i kvs))) as [j|] eqn:En.
+    + (* the index is inside (after growth) *)
+      assert (Hj : i <? 0 = false -> j = Z.to_nat i).
+      { intros Ei. rewrite (norm_idx_nonneg _ _ Ei) in En. inversion En. reflexivity. }
+      assert (Hnew : forall newv,
+                (covered Q1 = false -> leaks s (derive (IS j) Q1) newv = false) ->
+                leaks s Q (VObj (upsert k (VList (set_nth j newv (idx_l1 k i kvs))) kvs)) = false).
+      { intros newv Hnv. apply leaks_upsert; try assumption. fold Q1.
+        destruct (covered Q1) eqn:HcQ1; [rewrite leaks_eq, HcQ1; reflexivity|].
+        apply leaks_list_intro. intros n x Hx.
+        destruct (Nat.eq_dec n j) as [->|Hnj].
+        - destruct (Nat.lt_ge_cases j (List.length (idx_l1 k i kvs))) as [Hlt|Hge].
+          + rewrite nth_error_set_nth_same in Hx by exact Hlt. inversion Hx; subst x.
+            apply Hnv. reflexivity.
+          + exfalso. assert (nth_error (set_nth j newv (idx_l1 k i kvs)) j = None).
+            { apply nth_error_None. rewrite length_set_nth. exact Hge. }
+            congruence.
+        - rewrite nth_error_set_nth_other in Hx by exact Hnj.
+          apply (Hkeep eq_refl n x Hx).
+          destruct (i <? 0) eqn:Ei; [now left|right]. rewrite <- (Hj eq_refl). exact Hnj. }
+      destruct rest as [|s2 rest2].
+      * rewrite (set_idx_last _ _ _ _ _ En). apply Hnew. intros _. apply occurs_leaks. exact Hv.
+      * rewrite (set_idx_more _ _ _ _ _ _ _ En). apply Hnew. intros HcQ1.
+        apply IH; try assumption; try discriminate.
+        -- apply is_obj_as_obj.
+        -- apply wfv_as_obj, wfv_list_nth, wfv_idx_l1. exact Hwf.
+        -- destruct (nth_idx_l1_cases k i kvs j) as [(x & Hx0 & ->)| ->]; [|apply leaks_empty_obj].
+           destruct x; try apply leaks_empty_obj. simpl as_obj.
+           assert (Hc2 : covered (derive (KS k) (C ++ Q)) = false).
+           { rewrite derive_app, covered_app. fold Q1. rewrite HcQ1, orb_false_r.
+             unfold C. destruct (i <? 0); [reflexivity|].
+             replace (map (fun pos => KS k :: IS (Z.to_nat i) :: pos) (cover (s2 :: rest2)))
+               with (map (cons (KS k)) (map (cons (IS (Z.to_nat i))) (cover (s2 :: rest2))))
+               by (rewrite map_map; reflexivity).
+             rewrite derive_cons_same. apply covered_map_cons. }
+           pose proof (old_list_elems _ _ _ _ Hl HcP Hc2 j _ Hx0) as Hx1.
+           rewrite !derive_app in Hx1. fold Q1 in Hx1.
+           unfold C in Hx1. destruct (i <? 0) eqn:Ei.
+           ++ simpl in Hx1. eapply leaks_mono; [|exact Hx1]. apply incl_appr, incl_refl.
+           ++ rewrite (Hj eq_refl) in *. rewrite derive_cons2_same in Hx1. exact Hx1.
+    + (* negative index outside the list: only the list is (re)bound *)
+      rewrite (set_idx_none _ _ _ _ _ En).
+      apply leaks_upsert; try assumption. fold Q1.
+      destruct (covered Q1) eqn:HcQ1; [rewrite leaks_eq, HcQ1; reflexivity|].
+      apply leaks_list_intro. intros n x Hx.
+      apply (Hkeep eq_refl n x Hx). left. eapply norm_idx_none_neg. exact En.
+  - (* malformed index *)
+    simpl in Hl. exact Hl.
+  - simpl in Hl. exact Hl.
+Qed.
+
+(* ---- the whole sequence of writes ---- *)
+Definition op_ok (s : string) (o : op) : Prop :=
+  fst o <> [] /\ wfv (snd o) = true /\ op_clean s o = true.
+
+Lemma step_op_work segs v st :
+  VObj (a_work (step_op segs v st)) = set_segs segs v (VObj (a_work st)).
+Proof.
+  unfold step_op; simpl. destruct (set_segs_obj segs v (a_work st)) as [k' ->]. reflexivity.
+Qed.
+
+Lemma run_ops_cons o ops st : run_ops (o :: ops) st = run_ops ops (step_op (fst o) (snd o) st).
+Proof. reflexivity. Qed.
+
+Lemma run_ops_no_leak s : forall ops st Q,
+  wfv (VObj (a_work st)) = true ->
+  (forall o, In o ops -> op_ok s o) ->
+  leaks s (flat_map (fun o => cover (fst o)) ops ++ Q) (VObj (a_work st)) = false ->
+  leaks s Q (VObj (a_work (run_ops ops st))) = false.
+Proof.
+  induction ops as [|o ops IH]; intros st Q Hwf Hok Hl; [exact Hl|].
+  rewrite run_ops_cons.
+  destruct (Hok o (or_introl eq_refl)) as (Hne & Hwv & Hcl).
+  unfold op_clean in Hcl. apply andb_true_iff in Hcl. destruct Hcl as [Hcl Hocc].
+  apply negb_true_iff in Hocc.
+  apply IH.
+  - rewrite step_op_work. apply set_segs_wfv; assumption.
+  - intros o' Ho'. apply Hok. now right.
+  - rewrite step_op_work. apply set_no_leak; try assumption; try reflexivity.
+    simpl in Hl. rewrite <- app_assoc in Hl. exact Hl.
+Qed.
+
+Lemma split_on_nonempty sep s cur : split_on sep s cur <> [].
+Proof.
+  revert cur. induction s as [|c r IH]; intros cur; simpl; [discriminate|].
+  destruct (Ascii.eqb c sep); [discriminate|apply IH].
+Qed.
+Lemma parse_path_nonempty p : parse_path p <> [].
+Proof.
+  unfold parse_path, str_split. pose proof (split_on_nonempty "."%char p EmptyString) as H.
+  destruct (split_on "."%char p EmptyString); [congruence|discriminate].
+Qed.
+
+Lemma noncontainer_wfv v : is_container v = false -> wfv v = true.
+Proof. destruct v; simpl; try reflexivity; discriminate. Qed.
+
+Lemma flatten_ops_shape : forall obs ops term,
+  flatten obs = (ops, term) ->
+  forall o, In o ops -> fst o <> [] /\ wfv (snd o) = true.
+Proof.
+  induction obs as [|ob rest IH]; intros ops term Hf o Ho.
+  - simpl in Hf. inversion Hf; subst. destruct Ho.
+  - simpl in Hf. destruct ob as [| | | | |kv|]; try (inversion Hf; subst; destruct Ho).
+    destruct (py_eq (get_or_null "type" kv) (VStr "mask_fields")
+              || py_eq (get_or_null "type" kv) (VStr "redact_fields")).
+    + match type of Hf with context [is_container ?ph] =>
+        destruct (is_container ph) eqn:Hc; [inversion Hf; subst; destruct Ho|] end.
+      destruct (fields_of kv) as [ps| |]; try (inversion Hf; subst; destruct Ho).
+      match type of Hf with context [existsb ?f ?l] => destruct (existsb f l) end;
+        [inversion Hf; subst; destruct Ho|].
+      destruct (flatten rest) as [more term'] eqn:Hr.
+      inversion Hf; subst. apply in_app_or in Ho. destruct Ho as [Ho|Ho].
+      * apply in_map_iff in Ho. destruct Ho as [p [<- _]]. simpl.
+        split; [apply parse_path_nonempty|apply noncontainer_wfv; exact Hc].
+      * eapply IH; [reflexivity|exact Ho].
+    + eapply IH; eassumption.
+Qed.
+
+Lemma In_remove_key k kv kvs : In kv kvs -> fst kv <> k -> In kv (remove_key k kvs).
+Proof.
+  induction kvs as [|[k' x] r IH]; simpl; intros Hin Hf; [exact Hin|].
+  destruct Hin as [<-|Hin].
+  - simpl in Hf. destruct (String.eqb k k') eqn:E.
+    + apply String.eqb_eq in E. congruence.
+    + now left.
+  - destruct (String.eqb k k'); [apply IH; assumption|right; apply IH; assumption].
+Qed.
+
+Lemma derive_nil st : derive st [] = [].
+Proof. reflexivity. Qed.
+
+(* the record: payload with "env" rebound to something free of the secret *)
+Lemma safe_no_secret s payload out :
+  wfv (VObj payload) = true ->
+  str_contains s "env" = false ->
+  occurs s (VObj (remove_key "env" payload)) = false ->
+  occurs s out = false ->
+  occurs s (VObj (upsert "env" out payload)) = false.
+Proof.
+  intros Hwf Henv Hrest Hout. destruct (wfv_obj_inv _ Hwf) as [Hn _].
+  unfold occurs. apply leaks_upsert; try assumption.
+  intros kv Hkv Hf.
+  exact (leaks_obj_inv s [] _ Hrest eq_refl kv (In_remove_key _ _ _ Hkv Hf)).
+Qed.
+
+Lemma marker_occurs s n : occurs s (marker n) = occurs s (marker 0).
+Proof. reflexivity. Qed.
+
+Lemma flatten_nil : flatten [] = (@nil op, TDone).
+Proof. reflexivity. Qed.
+
+Local Opaque flatten.
+Theorem secret_gone s c payload u size d safe caller r :
+  secret_hyps s c payload = true ->
+  log c payload u size = LEmitted d safe caller r ->
+  occurs s safe = false.
+Proof.
+  unfold secret_hyps. destruct (assoc "env" payload) as [ev|] eqn:Eenv; [|discriminate].
+  destruct ev as [| | | | |env|]; try discriminate.
+  destruct (flatten (effective_specs c)) as [ops term] eqn:Ef.
+  intros Hh.
+  assert (Hparts : wfv (VObj payload) = true /\ vocab_free s = true /\
+                   occurs s (VObj (remove_key "env" payload)) = false /\
+                   forallb (op_clean s) ops = true /\
+                   term <> TOod /\
+                   (term = TDone -> leaks s (flat_map (fun o => cover (fst o)) ops) (VObj env) = false)).
+  { destruct term; try discriminate;
+      repeat (apply andb_true_iff in Hh; destruct Hh as [Hh ?]);
+      repeat match goal with H : negb _ = true |- _ => apply negb_true_iff in H end;
+      repeat split; try assumption; try discriminate; try (intros; assumption). }
+  clear Hh. destruct Hparts as (Hwf & Hvoc & Hrest & Hclean & Hterm & Hleak).
+  unfold vocab_free in Hvoc.
+  apply andb_true_iff in Hvoc. destruct Hvoc as [Hvoc Hfm].
+  apply andb_true_iff in Hvoc. destruct Hvoc as [Hvenv Hmk].
+  apply negb_true_iff in Hvenv, Hmk, Hfm.
+  assert (Hwfenv : wfv (VObj env) = true).
+  { destruct (wfv_obj_inv _ Hwf) as [_ Hf]. apply (Hf ("env"%string, VObj env)).
+    apply assoc_In. exact Eenv. }
+  (* the redacted env is free of the secret *)
+  assert (Hred : match redact c payload with
+                 | RedOk env' _ => occurs s (VObj env') = false
+                 | _ => True end).
+  { unfold redact. rewrite Eenv.
+    destruct (effective_specs c) as [|sp specs] eqn:Es.
+    - rewrite flatten_nil in Ef. inversion Ef; subst. apply Hleak. reflexivity.
+    - rewrite Ef. destruct term; try exact I.
+      apply (run_ops_no_leak s ops (mk_astate env env []) []); simpl.
+      + exact Hwfenv.
+      + intros o Ho. destruct (flatten_ops_shape _ _ _ Ef o Ho) as [Hne Hwv].
+        repeat split; try assumption. exact (forallb_In _ _ _ Hclean Ho).
+      + rewrite app_nil_r. apply Hleak. reflexivity. }
+  unfold log. destruct (should_drop c payload u) as [drop draws]. destruct drop; [discriminate|].
+  destruct (redact c payload) as [env' cl|cl|]; try discriminate.
+  - intros E. inversion E; subst. apply safe_no_secret; try assumption.
+    destruct (c_max c) as [b|]; [|exact Hred].
+    destruct size as [n|]; [|exact Hred].
+    destruct (n >? b); [rewrite marker_occurs; exact Hmk|exact Hred].
+  - intros E. inversion E; subst. apply safe_no_secret; assumption.
 Qed.
